@@ -94,6 +94,22 @@ def jobs(tier):
                                   "_vnacal_new_init_parameter_hash", "_vnacal_new_free_parameter_hash"],
                        bound="handles %s requested in this order from a new TE10 2x2 calibration (table grows 8->16 at the 8th node), then every handle looked up again" % sq,
                        timeout=120))
+    lsrcs = sorted(set(C20.BASE + C20.SOLVE + C20.common_sources() + ["vnacal_delete_parameter.c"]))
+    for t in (("VNACAL_TE10", "VNACAL_UE14") if tier == "quick" else ("VNACAL_TE10", "VNACAL_UE10", "VNACAL_UE14", "VNACAL_E12")):
+        J.append(V.Job("leakage_samples.%s" % t[7:], "vnacal/c20.c", "h_leakage_samples", lsrcs,
+                       defines=C20.CUT + ["-DCAL_TYPE=%s" % t, "-DCAL_ROWS=3", "-DCAL_COLS=3"], unwind=26, union_struct=True,
+                       kind="bounded", canary=(t == "VNACAL_TE10"),
+                       functions=["_vnacal_new_solve_start_frequency (leakage accumulation)", "_vnacal_new_solve_init",
+                                  "build_connectivity_matrix", "vnacal_new_add_mapped_matrix_m"],
+                       bound="%s 3x3, a 3-port divider with S23 = 0 (all ports connected through port 1) and a two-port standard with "
+                             "unconnected ports, full 3x3 measurements, all 18 measured values symbolic" % t,
+                       timeout=400, cbmc_flags=["--slice-formula"]))
+    J.append(V.Job("param_hash.deleted_handle", "vnacal/c01_hash.c", "h_deleted_handle",
+                   C20.BASE + ["vnacal_make_scalar_parameter.c", "vnacal_make_correlated_parameter.c", "vnacal_delete_parameter.c",
+                               "vnacommon_spline.c"],
+                   defines=C20.CUT, unwind=12, union_struct=True, kind="bounded", canary=False,
+                   functions=["_vnacal_new_get_parameter", "get_parameter_node", "vnacal_delete_parameter", "_vnacal_release_parameter"],
+                   bound="scalar p, scalar g, correlated c(g) in a T8 2x2 calibration; delete p and g while in use", timeout=300))
     return J
 
 
